@@ -19,12 +19,49 @@ import (
 
 type histCase struct {
 	Marker string   `json:"history_diff"`
+	Kind   int      `json:"history_kind"`
 	Trees  []string `json:"trees"`
 	Param  string   `json:"call"`
 }
 
-// histTree: parse, build every index, swap the names of the alphabetically first and last tips.
+// histKind selects the history given to a tree before it is used:
+//
+//	0: parse, build every index, swap the names of the alphabetically first and last tips (Rename refreshes the name index only)
+//	1: parse, build every index, re-root on the last inner node (branch ids no longer follow the traversal order)
+//	2: parse the tree with two more tips, build every index on those seven taxa, remove the two tips again
+var histKind = 0
+
+var histKindNames = []string{"indexed then tips renamed", "indexed then re-rooted", "indexed on seven taxa then pruned to five"}
+
 func histTree(txt string) *tree.Tree {
+	switch histKind {
+	case 1:
+		t := gtMustParse(txt)
+		if err := t.ReinitIndexes(); err != nil {
+			panic(err)
+		}
+		var last *tree.Node
+		for _, n := range t.Nodes() {
+			if !n.Tip() && n != t.Root() {
+				last = n
+			}
+		}
+		if last != nil {
+			if err := t.Reroot(last); err != nil {
+				panic(err)
+			}
+		}
+		return t
+	case 2:
+		t := gtMustParse("(" + strings.TrimSuffix(strings.TrimSpace(txt), ";") + ":0.5,Y1:1,Y2:2);")
+		if err := t.ReinitIndexes(); err != nil {
+			panic(err)
+		}
+		if err := t.RemoveTips(false, "Y1", "Y2"); err != nil {
+			panic(err)
+		}
+		return t
+	}
 	t := gtMustParse(txt)
 	if err := t.ReinitIndexes(); err != nil {
 		panic(err)
@@ -36,6 +73,25 @@ func histTree(txt string) *tree.Tree {
 		panic(err)
 	}
 	return t
+}
+
+func histNote(what string) string {
+	if what == "" {
+		return ""
+	}
+	return "[history: " + histKindNames[histKind] + "] " + what
+}
+
+// histKinds runs a family once per kind of history.
+func histKinds(f func(c *Ctx)) func(c *Ctx) {
+	return func(c *Ctx) {
+		for k := range histKindNames {
+			histKind = k
+			f(c)
+			c.Count(fmt.Sprintf("history_kind_%d", k), 1)
+		}
+		histKind = 0
+	}
 }
 
 func histSplitDesc(txt string) string {
@@ -68,7 +124,7 @@ func histRunC08(c *Ctx) {
 					continue
 				}
 				ri, cj, tips := pool[i], pool[j], tips
-				c.Check(histCase{Marker: "compare", Trees: []string{ri, cj}, Param: fmt.Sprintf("Compare/CompareWeighted(ref indexed then renamed, tips=%v)", tips)}, func() (string, string) {
+				c.Check(histCase{Kind: histKind, Marker: "compare", Trees: []string{ri, cj}, Param: fmt.Sprintf("Compare/CompareWeighted(ref indexed then renamed, tips=%v)", tips)}, func() (string, string) {
 					var key, what string
 					r := mcrt.Run(mcrt.Config{NoSched: true, Fuel: 50_000_000}, func() {
 						run := func(ref *tree.Tree) (string, string) {
@@ -117,7 +173,7 @@ func histRunC08(c *Ctx) {
 					if crashed(r) {
 						return "C08/history/crash/" + crashSite(r), verdictStr(r)
 					}
-					return key, what
+					return key, histNote(what)
 				})
 				c.States++
 				c.Count("history_compare_cases", 1)
@@ -142,7 +198,7 @@ func histRunC09(c *Ctx) {
 					continue
 				}
 				a, b, f := pool[i], pool[j], f
-				c.Check(histCase{Marker: "consensus", Trees: []string{a, b}, Param: fmt.Sprintf("Consensus(indexed-then-renamed trees, %v)", f)}, func() (string, string) {
+				c.Check(histCase{Kind: histKind, Marker: "consensus", Trees: []string{a, b}, Param: fmt.Sprintf("Consensus(indexed-then-renamed trees, %v)", f)}, func() (string, string) {
 					var key, what string
 					r := mcrt.Run(mcrt.Config{NoSched: true, Fuel: 50_000_000}, func() {
 						// the renamed tree comes second: the first tree fixes the taxa, the second must be re-indexed
@@ -161,7 +217,7 @@ func histRunC09(c *Ctx) {
 					if crashed(r) {
 						return "C09/history/crash/" + crashSite(r), verdictStr(r)
 					}
-					return key, what
+					return key, histNote(what)
 				})
 				c.States++
 				c.Count("history_consensus_cases", 1)
@@ -187,7 +243,7 @@ func histRunC10(c *Ctx) {
 				continue
 			}
 			a, b := pool[i], pool[j]
-			c.Check(histCase{Marker: "support", Trees: []string{a, b}, Param: "FBP then TBE with one Supporter; reference / bootstrap trees indexed then renamed"}, func() (string, string) {
+			c.Check(histCase{Kind: histKind, Marker: "support", Trees: []string{a, b}, Param: "FBP then TBE with one Supporter; reference / bootstrap trees indexed then renamed"}, func() (string, string) {
 				var key, what string
 				r := mcrt.Run(mcrt.Config{NoSched: true, Fuel: 50_000_000, NumCPU: 1}, func() {
 					boots := func(hist bool) []*tree.Tree {
@@ -225,7 +281,7 @@ func histRunC10(c *Ctx) {
 				if crashed(r) {
 					return "C10/history/crash/" + crashSite(r), verdictStr(r)
 				}
-				return key, what
+				return key, histNote(what)
 			})
 			c.States++
 			c.Count("history_support_cases", 1)
@@ -234,9 +290,9 @@ func histRunC10(c *Ctx) {
 }
 
 func init() {
-	addExtra("C08", histRunC08)
-	addExtra("C09", histRunC09)
-	addExtra("C10", histRunC10)
+	addExtra("C08", histKinds(histRunC08))
+	addExtra("C09", histKinds(histRunC09))
+	addExtra("C10", histKinds(histRunC10))
 	extraRequire["C08"] = append(extraRequire["C08"], "history_compare_cases")
 	extraRequire["C09"] = append(extraRequire["C09"], "history_consensus_cases")
 	extraRequire["C10"] = append(extraRequire["C10"], "history_support_cases")
